@@ -6,7 +6,7 @@ open RedunModel RedunModel.CacheHist
      hist (V <simpleExprValid T|F> <cseSubtreeFromDb T|F> <noCatchCache T|F>) (tbl (i<name> i<ver> <spec>)*) (steps <step>*)
      spec ::= (ret <tm>) | (raise i<cls>)
      tm   ::= arg | numarg | i<int> | (file i<p>) | (add <tm> <tm>) | (call i<name> <tm>) | (catch <tm> i<cls> i<rec>)
-     step ::= (step (code (i<name> i<ver> <shallow T|F>)*) (fs (i<p> i<stamp>)*) (root i<name> <val>))
+     step ::= (step (code (i<name> i<ver> <shallow T|F> <pinned T|F>)*) (fs (i<p> i<stamp>)*) (root i<name> <val>))
      val  ::= i<int> | (file i<p> i<stamp>)
    reply: one item per step joined by " ; ":   <res> | <called keys, in call order>
      res ::= ok:<val> | err:<cls> | fuel        key ::= <name>.<ver>(<val>)                                  -/
@@ -47,10 +47,10 @@ def tblOf : List Sexp → Option (List (TH × Spec))
     pure (e :: (← tblOf r))
   | _ => none
 
-def codeRows : List Sexp → Option (List (Nat × Nat × Bool))
+def codeRows : List Sexp → Option (List (Nat × Nat × Bool × Bool))
   | [] => some []
-  | .list [n, v, s] :: r => do
-    let e := (← natA n, ← natA v, ← boolA s)
+  | .list [n, v, s, p] :: r => do
+    let e := (← natA n, ← natA v, ← boolA s, ← boolA p)
     pure (e :: (← codeRows r))
   | _ => none
 
@@ -61,9 +61,10 @@ def fsRows : List Sexp → Option (List (Nat × Nat))
     pure (e :: (← fsRows r))
   | _ => none
 
-def codeOf (rows : List (Nat × Nat × Bool)) : Code where
+def codeOf (rows : List (Nat × Nat × Bool × Bool)) : Code where
   ver n := match lookup n rows with | some (v, _) => v | none => 0
-  shallow n := match lookup n rows with | some (_, s) => s | none => false
+  shallow n := match lookup n rows with | some (_, s, _) => s | none => false
+  pinned n := match lookup n rows with | some (_, _, p) => p | none => false
 
 def fsOf (rows : List (Nat × Nat)) : FS := fun p => (lookup p rows).getD 0
 
